@@ -68,9 +68,21 @@ func AddAxiom(t *Term) {
 
 func NumAxioms() int { tab.mu.Lock(); defer tab.mu.Unlock(); return len(axioms) }
 
-// NewSolver starts "z3", "z3-new" or "cvc5".
+// FastTimeoutMs is the per-query limit of the first portfolio round.
+var FastTimeoutMs = 6000
+
+// NewSolver starts "z3", "z3-new" or "cvc5" (suffix ":fast": with the short first-round time limit).
 func NewSolver(name string, timeoutMs int) (*Solver, error) {
 	var cmd *exec.Cmd
+	full := name
+	if strings.HasSuffix(name, ":fast") {
+		// first-round instance of a staggered portfolio: same solver, short time limit
+		name = strings.TrimSuffix(name, ":fast")
+		if timeoutMs > FastTimeoutMs {
+			timeoutMs = FastTimeoutMs
+		}
+	}
+	defer func() { name = full }()
 	switch name {
 	case "z3":
 		cmd = exec.Command("/usr/bin/z3", "-in")
@@ -94,7 +106,7 @@ func NewSolver(name string, timeoutMs int) (*Solver, error) {
 	if err := cmd.Start(); err != nil {
 		return nil, err
 	}
-	s := &Solver{Name: name, cmd: cmd, in: in, out: bufio.NewReaderSize(outp, 1<<20),
+	s := &Solver{Name: full, cmd: cmd, in: in, out: bufio.NewReaderSize(outp, 1<<20),
 		defined: map[int]bool{}, declUF: map[string]bool{}, TimeoutMs: timeoutMs, memo: map[string]Result{}}
 	if lp := os.Getenv("VCHECK_SMTLOG"); lp != "" {
 		if f, err := os.OpenFile(fmt.Sprintf("%s.%s.%d", lp, name, os.Getpid()), os.O_CREATE|os.O_WRONLY|os.O_APPEND, 0o644); err == nil {
@@ -104,7 +116,7 @@ func NewSolver(name string, timeoutMs int) (*Solver, error) {
 	s.send("(set-option :print-success false)")
 	s.send("(set-option :produce-models true)")
 	s.send("(set-option :global-declarations true)")
-	if name != "cvc5" {
+	if !strings.HasPrefix(name, "cvc5") {
 		s.send(fmt.Sprintf("(set-option :timeout %d)", timeoutMs))
 	}
 	s.send("(set-logic ALL)")
@@ -284,9 +296,23 @@ func (s *Solver) check(as []*Term, syms []*Term) (Result, map[string]ModelVal) {
 			return r, nil
 		}
 		if s.shared != nil {
-			if r, ok := s.shared.Load(s.Name + "|" + k); ok {
+			if r, ok := s.shared.Load(k); ok {
 				s.memo[k] = r.(Result)
 				return r.(Result), nil
+			}
+			// another worker of the entry may be deciding the very same query right now: wait for it
+			mine := make(chan struct{})
+			if ch, busy := s.shared.LoadOrStore("inflight|"+k, mine); busy {
+				<-ch.(chan struct{})
+				if r, ok := s.shared.Load(k); ok {
+					s.memo[k] = r.(Result)
+					return r.(Result), nil
+				}
+			} else {
+				defer func() {
+					s.shared.Delete("inflight|" + k)
+					close(mine)
+				}()
 			}
 		}
 	}
@@ -364,10 +390,13 @@ func (s *Solver) check(as []*Term, syms []*Term) (Result, map[string]ModelVal) {
 		s.Unknowns++
 	}
 	s.Time += time.Since(start)
+	if s.Log != nil {
+		fmt.Fprintf(s.Log, "; took %.2fs result %v conjuncts %d\n", time.Since(start).Seconds(), res, len(conj))
+	}
 	if syms == nil {
 		s.memo[k] = res
 		if s.shared != nil && res != Unknown {
-			s.shared.Store(s.Name+"|"+k, res)
+			s.shared.Store(k, res)
 		}
 	}
 	return res, model
@@ -662,6 +691,7 @@ type Router struct {
 	TimeoutMs int
 	solvers   map[string]*Solver
 	Fallbacks int
+	wins      map[string]int
 	// Shared: verdicts shared by the routers of the parallel workers of one entry (same scope, hence the
 	// same axioms); nil = none
 	Shared *sync.Map
@@ -743,12 +773,31 @@ func (r *Router) checkFull(as []*Term, syms []*Term) (Result, map[string]ModelVa
 			return Unsat, nil
 		}
 	}
-	for i, name := range r.order(as) {
+	// staggered portfolio: every solver gets a short try first (a query that stalls one solver is often
+	// easy for another), then each gets the full time limit
+	order := r.order(as)
+	if r.TimeoutMs > FastTimeoutMs {
+		for i, name := range order {
+			res, m := r.get(name+":fast").check(as, syms)
+			if res != Unknown {
+				if i > 0 {
+					r.Fallbacks++
+				}
+				return res, m
+			}
+		}
+	}
+	// second round: the solver that settled earlier escalated queries of this entry goes first
+	order = append([]string(nil), order...)
+	sort.SliceStable(order, func(i, j int) bool { return r.wins[order[i]] > r.wins[order[j]] })
+	for _, name := range order {
 		res, m := r.get(name).check(as, syms)
 		if res != Unknown {
-			if i > 0 {
-				r.Fallbacks++
+			r.Fallbacks++
+			if r.wins == nil {
+				r.wins = map[string]int{}
 			}
+			r.wins[name]++
 			return res, m
 		}
 	}
